@@ -279,9 +279,7 @@ def g_direction(rep, tier, sc, reported):
     for c in cases:
         r = {"id": c["id"], "kind": c["kind"], "t": c["t"], "z": c["z"]}
         if c["kind"] == "arith":
-            # quick tier: t + d and t - d for every case, each of the three composite laws for every third case
-            ops = G_OPS if tier != "quick" else G_OPS[:2] + [G_OPS[2 + (c["i"] + c["j"]) % 3]]
-            r.update(dtext=c["dtext"], ops=ops)
+            r.update(dtext=c["dtext"], ops=G_OPS)
         elif c["kind"] == "diff":
             r.update(u=c["u"], zu=c["zu"])
         elif c["kind"] == "tz":
@@ -327,7 +325,7 @@ def g_direction(rep, tier, sc, reported):
 
 
 def j_direction(rep, tier, seed, sc, reported):
-    ntr, nev = (8, 1500) if tier == "quick" else (16, 12000)
+    ntr, nev = (8, 2500) if tier == "quick" else (16, 30000)
     paths = [os.path.join(sc, "j_%d.ndjson" % k) for k in range(ntr)]
 
     def rec(k):
